@@ -15,15 +15,80 @@ TECH = ("bounded model checking of the real Rust source (Kani 0.68 -> CBMC 6.11 
         "pre-states, unwinding assertions on, counterexamples replayed natively against the real crate")
 
 # property -> (design_ref, level text, level note)
+CONTRACT_NOTE = ("Assume/guarantee decomposition: functions that only move bytes (chunk load, brotli, AES/GHASH) are replaced by "
+                 "contracts on lengths/positions in position harnesses, and each contract is checked against the real body by a "
+                 "refinement harness (at scaled constants via the cargo feature mla_verif where a whole chunk must be executed). "
+                 "Model crates stand for aes/ctr/ghash/brotli; alloc::fmt::format and From<mla::Error> for io::Error are stubbed "
+                 "(error text and payload are outside every property). Bounds are per harness in the evidence file. ")
+
 CLAIMS = {
+    "C01": ("§5 C01",
+            "Solver-decided: the position/size arithmetic that writer and readers must agree on for EVERY alignment — tagged/untagged "
+            "position maps, encryption seek and sequential read bookkeeping, compression size-table lookups, block change and re-sync, "
+            "per-file run bookkeeping, position-layer byte counting. Byte fidelity through real AES/brotli/SHA-256 and the HashMap-based "
+            "name/offset index are outside.",
+            CONTRACT_NOTE + "Not decided: ArchiveWriter/ArchiveReader API level (HashMaps, bincode footer), hashing, compression levels, recipients."),
+    "C02": ("§5 C02",
+            "Solver-decided for the layer fail-safe readers that repair consumes: for ANY cut length (also inside a tag, 1..15 bytes after a "
+            "chunk edge, inside a brotli block) they do not panic, deliver only a prefix of the original stream and end with Ok(0)/Err; the "
+            "real load bodies are total on every remaining length.",
+            CONTRACT_NOTE + "Not decided: the repair block loop (convert_to_archive: four HashMaps, hash check, UnfinishedFiles report)."),
+    "C03": ("§5 C03",
+            "Solver-decided under an explicit ideal-MAC assumption: the real load_in_cache accepts a chunk only if its tag verifies, leaves no "
+            "byte of a rejected chunk readable, binds the nonce to the big-endian chunk index; read_internal/seek expose data only from a "
+            "cache filled by a successful authenticated load of the right chunk and propagate the error.",
+            CONTRACT_NOTE + "Assumes AES-GCM is a secure MAC (AesGcm256::decrypt stub: tag matches iff chunk authentic). Not decided: header fields "
+            "through bincode, names from list_files, key unwrap (ecc)."),
+    "C04": ("§5 C04",
+            "Solver-decided for the encryption fail-safe reader in authenticated mode: bytes come only from chunks whose tag verified, "
+            "contiguously from the start; after the first rejected chunk every later read returns 0 and loads nothing; unauthenticated mode "
+            "returns every data byte present. Known finding F4 (chunk 0 never verified) is carved out and witnessed.",
+            CONTRACT_NOTE + "Not decided: the block loop above the layer; adversarial content parsing."),
+    "C05": ("§5 C05",
+            "Solver-decided: the fail-safe decompressor never reports end of data (Ok(0)) while compressed input or decoded output remains, "
+            "never drops decoder-pending output, keeps its cache invariant and starts the next block right after the consumed bytes — by a "
+            "one-pass induction over ANY cache/decoder state; the encryption fail-safe reader returns all bytes of complete chunks.",
+            CONTRACT_NOTE + "brotli is an over-approximating contract model: a pass transfers to real brotli, counterexamples are confirmed natively "
+            "with the real crate. Not decided: the content loop of convert_to_archive, monotonicity above the layers."),
+    "C06": ("§5 C06",
+            "Solver-decided: format constants and block-type bytes for all 256 tag values, exact serialisation bytes of every block kind, "
+            "chunk nonce = archive nonce || big-endian index, chunk/tag/block size constants used by the position maps.",
+            CONTRACT_NOTE + "Not decided here: an independent decoder of real AES/brotli bytes, bincode header/footer layout, HKDF info strings, "
+            "GCM split invariance (thorough-tier harness if present)."),
+    "C08": ("§5 C08",
+            "Solver-decided panic-freedom (overflow checks on) of the length/offset/index arithmetic fed by untrusted bytes, for ALL 64-bit "
+            "values: encryption seek on any inner length and offset, chunk load on any remaining length, raw seek, footer location in both "
+            "footers, compression reader on arbitrary size tables/positions/offsets incl. use after an error, per-file reader on arbitrary "
+            "block headers.",
+            CONTRACT_NOTE + "Not decided: ArchiveFileBlock::from itself (name allocation/UTF-8 did not finish), bincode/serde/HashMap internals, "
+            "brotli internals, time and memory proportions, recursion depth of block skipping."),
+    "C09": ("§5 C09",
+            "Solver-decided for the block serialisation kernel: a refused file start (name > 65536 bytes) writes nothing; a content source "
+            "shorter than the announced size is never reported as success; a successful dump writes exactly header + announced bytes.",
+            CONTRACT_NOTE + "Not decided: everything that needs ArchiveWriter's state (files_info / ids_info / hashes HashMaps): duplicate names, "
+            "unknown or ended ids, finalisation order."),
+    "C10": ("§5 C10",
+            "Solver-decided as post-state independence: after seek(Start(p)) the observable reader state of the encryption and compression "
+            "readers is a function of p and the stream only, whatever the (fully symbolic) pre-state; per-file reader bookkeeping for any "
+            "remaining count and buffer size.",
+            CONTRACT_NOTE + "Not decided: get_hash/list_files (HashMap), real data."),
     "C11": ("§5 C11",
-            "Solver-decided for every stream length and target inside the bounds: the real Seek implementations of the "
-            "encryption, compression and raw layer readers return the positions an in-memory cursor over the layer's "
-            "plaintext returns, find the end for every residue modulo the chunk/block size, and leave a post-state that "
-            "is a function of the target only. Bounded (lengths < 2^40 quick / 2^48 thorough), not a proof.",
-            "Chunk loading and decompression are replaced by contracts on lengths/positions (each contract is checked "
-            "against the real body by a refinement harness); AES/GHASH/brotli are model crates; error text is stubbed. "
-            "Byte values returned by read() follow from the load contract, not from real ciphertext."),
+            "Solver-decided for every stream length and target inside the bounds: the real Seek implementations of the encryption, "
+            "compression and raw layer readers return the positions an in-memory cursor over the layer's plaintext returns, find the end "
+            "for every residue modulo the chunk/block size (exact multiples, empty, partial), sequential reads return min(buffer, rest) and "
+            "0 exactly at the end. Bounded (lengths < 2^40 quick / 2^48 thorough), not a proof.",
+            CONTRACT_NOTE + "Byte values returned by read() follow from the load contract + refinement, not from real ciphertext; stacked layers are "
+            "covered layer by layer."),
+    "C13": ("§5 C13",
+            "Solver-decided: the position layer counts exactly the bytes the inner writer accepted for any partial-acceptance schedule; the "
+            "fail-safe decompressor gives the same result for any short-read schedule of its source (one-pass induction); chunk loads "
+            "consume exactly min(remaining, chunk+tag).",
+            CONTRACT_NOTE + "std write_all / read_to_end / io::copy are trusted to loop over partial transfers. Not decided: end-to-end archive equality."),
+    "C14": ("§5 C14",
+            "Solver-decided: when its input ends the fail-safe decompressor first delivers everything the decoder still holds (no Ok(0)/Err "
+            "with pending output), and flush of the position layer reaches the inner writer.",
+            CONTRACT_NOTE + "Assumes brotli's flush makes all input decodable (brotli contract). Not decided: flush propagation through the real "
+            "CompressorWriter, the repair loop."),
 }
 
 NOT_APPLICABLE = {
